@@ -1015,7 +1015,9 @@ func (c *Conn) handleBdat(arg string) {
 		last = true
 	}
 
-	if c.server.MaxMessageBytes != 0 && c.bytesReceived+int64(size) > c.server.MaxMessageBytes {
+	// Written as a subtraction: bytesReceived never exceeds the limit, while
+	// bytesReceived+size could overflow for a huge declared size.
+	if c.server.MaxMessageBytes != 0 && int64(size) > c.server.MaxMessageBytes-c.bytesReceived {
 		c.writeResponse(552, EnhancedCode{5, 3, 4}, "Max message size exceeded")
 
 		// Discard chunk itself without passing it to backend.
